@@ -100,3 +100,42 @@ Proof.
   rewrite cntloop. reflexivity.
 Qed.
 
+
+(* ---------- Exports.HasExportContainingSubject (both libraries): some entry of the list that is there holds a subject
+   containing the one asked for - whatever the entries are (the export is an opaque value: its subject and whether it
+   is nil are all the code looks at) ---------- *)
+Section HasExport.
+  Context {V : Type} (vnil : V) (subj_of : V -> string) (is_nil_v : V -> bool).
+  Lemma src_has_export_loop : forall (l : list V) (i : Z) (subject : string),
+    go_range (R:=bool) (fun (_ : Z) (s : V) (go_st : unit) =>
+       if negb (is_nil_v s) && V2.Subject_IsContainedIn subject (subj_of s) then Ret true else Cont tt) i l tt
+    = if existsb (fun e => negb (is_nil_v e) && is_contained_in subject (subj_of e)) l then inr true else inl tt.
+  Proof.
+    induction l as [|e l IH]; intros i subject; [reflexivity|].
+    cbn [go_range existsb]. rewrite src_is_contained_in.
+    destruct (negb (is_nil_v e) && is_contained_in subject (subj_of e)); [reflexivity|]. cbn [orb]. apply IH.
+  Qed.
+  Lemma src_has_export_containing (l : list V) (subject : string) :
+    V2.Exports_HasExportContainingSubject V vnil subj_of is_nil_v l subject
+    = existsb (fun e => negb (is_nil_v e) && is_contained_in subject (subj_of e)) l.
+  Proof.
+    unfold V2.Exports_HasExportContainingSubject. rewrite src_has_export_loop.
+    destruct (existsb _ l); reflexivity.
+  Qed.
+  Lemma src_v1_has_export_loop : forall (l : list V) (i : Z) (subject : string),
+    go_range (R:=bool) (fun (_ : Z) (s : V) (go_st : unit) =>
+       if negb (is_nil_v s) && V1.Subject_IsContainedIn subject (subj_of s) then Ret true else Cont tt) i l tt
+    = if existsb (fun e => negb (is_nil_v e) && is_contained_in subject (subj_of e)) l then inr true else inl tt.
+  Proof.
+    induction l as [|e l IH]; intros i subject; [reflexivity|].
+    cbn [go_range existsb]. rewrite src_v1_is_contained_in.
+    destruct (negb (is_nil_v e) && is_contained_in subject (subj_of e)); [reflexivity|]. cbn [orb]. apply IH.
+  Qed.
+  Lemma src_v1_has_export_containing (l : list V) (subject : string) :
+    V1.Exports_HasExportContainingSubject V vnil subj_of is_nil_v l subject
+    = existsb (fun e => negb (is_nil_v e) && is_contained_in subject (subj_of e)) l.
+  Proof.
+    unfold V1.Exports_HasExportContainingSubject. rewrite src_v1_has_export_loop.
+    destruct (existsb _ l); reflexivity.
+  Qed.
+End HasExport.
